@@ -155,6 +155,20 @@ func TestC05Auth(t *testing.T) {
 					}
 				}
 				gi := rapid.IntRange(0, len(p.rightful)-1).Draw(rt, "rightful-role")
+				if rapid.IntRange(0, 5).Draw(rt, "poor-signer-top-up") == 0 {
+					// a stake top-up larger than the SIGNER's balance while the validator's other key is rich: poor operator of v3 (rich
+					// output) or poor output of v5 (rich operator). Only the signer's account may ever pay.
+					v, role := w.vals[3], 0
+					if rapid.Bool().Draw(rt, "poor-output") {
+						v, role = w.vals[5], 1
+					}
+					if cur := cs.ValidatorIn(state, v.addr); cur != nil && cur.UnstakingHeight == 0 {
+						p = payload{msg: &fsm.MessageEditStake{Address: v.addr, Amount: cur.StakedAmount + bigTopUp, Committees: cur.Committees, NetAddress: cur.NetAddress, OutputAddress: cur.Output, Compound: cur.Compound},
+							rightful: [][]cs.Signer{v.operator, v.output}, roles: []string{"operator", "output"}, about: fmt.Sprintf("%s top-up %d by its POOR key", v.name, uint64(bigTopUp))}
+						gi = role
+						cse.Class("shape=top-up-above-the-signers-balance-while-the-other-key-is-rich")
+					}
+				}
 				s := pick(rt, "rightful-form", p.rightful[gi])
 				grind := (s.Kind == cs.KindEd || s.Kind == cs.KindSecp) && rapid.IntRange(0, 1).Draw(rt, "grind") == 0
 				claim := ""
